@@ -195,6 +195,21 @@ def h_summary_run(sx):
         return {"status": w.status_table(), "steps": w.step_status_table(),
                 "flags": {k: (sx.eval(v, m) if m is not None else bool(v)) for k, v in flags.items()}}
     cen = compare(sx, reps, w.features, det)
+    # the printed listing: a "Failing scenarios:" and an "Errored scenarios:" section with exactly those scenarios
+    for fmt, rep in reps.items():
+        text = rep.stream.getvalue()
+        listed = {"Failing": [], "Errored": []}
+        cur = None
+        for line in text.splitlines():
+            if line.strip() in ("Failing scenarios:", "Errored scenarios:"):
+                cur = line.split()[0]
+            elif cur and line.startswith("  ") and line.strip():
+                listed[cur].append(line.strip().split("  ")[0])
+            else:
+                cur = None
+        want = {"Failing": [str(s.location) for s in rep.failed_scenarios], "Errored": [str(s.location) for s in rep.errored_scenarios]}
+        sx.check(listed == want, "C14.printed-listing==failed-and-errored-scenarios",
+                 detail=lambda m, fmt=fmt, listed=listed, want=want: dict(det(m), fmt=fmt, printed=listed, expected=want))
     obs = w.observable()
     obs["census"] = cen
     obs["v1"] = reps["v1"].stream.getvalue().split("Took")[0]
